@@ -112,7 +112,10 @@ def datadesc(datafield: str) -> str:
     :rtype: str
     """
 
-    (_, _, _, desc) = RTCM_DATA_FIELDS[datafield[0:5]]
+    # strip any group indices e.g. "DF406_01", "IDF023_02_03", "CELLPRN_04"
+    while datafield not in RTCM_DATA_FIELDS and "_" in datafield:
+        datafield = datafield.rsplit("_", 1)[0]
+    (_, _, _, desc) = RTCM_DATA_FIELDS[datafield]
     return desc
 
 
